@@ -59,7 +59,9 @@ def violated_and_satisfied(col, kind, tier):
     (with a precision for min/max), plus one it calls satisfied."""
     pycol = A.py_column(col)
     out, seen_sat = [], False
-    for enc in A.constraint_values(col, kind, tier):
+    values = (A.TYPE_VALUES_BASIC if kind == 'type'
+              else A.constraint_values(col, kind, tier))
+    for enc in values:
         if enc is None:
             continue
         precs = [None, 'open', 'closed'] if kind in ('min', 'max') else [None]
